@@ -136,6 +136,14 @@ def handler : Handler S where
                   cur := none },
          [if !valid then "obs cfg client=invalid" else if ok then "obs cfg client=ok" else "obs cfg client=err"])
       | _, _, _ => (s, ["obs bad-op"])
+    | "getbody" :: rest =>
+      -- the request `compressRoundTripper` hands on is built from the compressed buffer (`http.NewRequestWithContext(…, buf)`), so its
+      -- GetBody replays exactly its Body, under the configured algorithm's name
+      match (kv rest "ct").bind unhex with
+      | some ct =>
+        if isCompressed ct && (assoc Gen.Compression.writers ct).isSome then (s, [s!"obs getbody equal enc={hex ct}"])
+        else (s, ["obs bad-op"])
+      | none => (s, ["obs bad-op"])
     | "conc" :: rest =>
       -- overlapping requests through a default server: each is a round trip within the (default) limit, so every
       -- handler reads exactly its own client's bytes (`C16_roundtrip_partial` / `C16_identity_partial` per request);
@@ -204,6 +212,9 @@ def handler : Handler S where
       | _, _ => { s with fails := "sig=C16/harness/unparsable-sent" :: s.fails }
     | _ :: "cfg" :: _ => s
     | _ :: "view" :: _ => s
+    | _ :: "getbody" :: v :: _ =>
+      if v = "equal" || v = "absent" then s   -- no GetBody = not replayable: a changed tie, not a violated property
+      else { s with fails := s!"sig=C16/client/getbody-differs-from-body outgoing-request-getbody={v}" :: s.fails }
     | _ :: "conc" :: rest =>
       match kvNat rest "total", kvNat rest "exact" with
       | some t, some e =>
